@@ -2,19 +2,20 @@
 //
 // Every case is one byte stream delivered to a real router session (hook-built Router, the real
 // serve loop on an in-memory connection). Streams run in child processes (address-space limit
-// 768 MiB - touching memory is very slow on the verification machine -, soft Go memory limit) so that process-fatal events are attributed to their input: the
+// `ulimit -v` 3.5 GiB, soft Go memory limit) so that process-fatal events are attributed to their input: the
 // batch is on disk before the child starts and the child appends the index of the stream it is
 // about to run to a side file.
 //
 // Oracles per stream:
 //
 //	crash  the serve goroutine panics (it has no recover in production: the receiver dies) or
-//	       the child dies (fatal error, out of memory under the limit);
+//	       the child dies (fatal error, out of memory under the 3.5 GiB limit);
 //	alloc  cumulative heap allocation (runtime TotalAlloc) while the stream is served exceeds
 //	       1 MiB + 512 x bytes sent + 8 KiB x complete frames sent;
 //	wedge  after the stream the serve loop neither returned nor is blocked reading at the end of
 //	       the input, or does not return after end-of-stream;
-//	fresh  a fresh router does not accept a fixed valid conversation afterwards.
+//	fresh  a fresh router does not accept a fixed valid conversation afterwards (checked after
+//	       every 4th stream, after every stream with another alarm, and always in replays).
 package main
 
 import (
@@ -50,7 +51,7 @@ const (
 	allocBase     = 1 << 20
 	allocPerByte  = 512
 	allocPerFrame = 8 << 10
-	streamWatch   = 15 * time.Second // watchdog for one synchronisation point inside a child
+	streamWatch   = 60 * time.Second // watchdog for one synchronisation point inside a child
 )
 
 // finding is one oracle alarm of the child for a stream.
@@ -71,7 +72,12 @@ type result struct {
 	End       string    `json:"end"` // how the session ended: returned | closed_by_router | eof | reset
 	Neighbors int       `json:"neighbors"`
 	Fatal     bool      `json:"fatal,omitempty"` // the child cannot continue after this stream
+	Millis    int64     `json:"ms"`
 }
+
+// freshAlways: run the fresh-router check after every stream (replay), else after every 4th
+// stream and after every stream with an alarm.
+var freshAlways = os.Getenv("C27_FRESH_ALWAYS") != ""
 
 func totalAlloc() uint64 {
 	var ms runtime.MemStats
@@ -126,7 +132,11 @@ func freshCheck() string {
 }
 
 // runStream serves one stream on a new router and applies the oracles.
-func runStream(idx int, s stream) (res result) {
+func runStream(idx int, s stream) result { return serveStream(idx, s, false) }
+
+// serveStream is runStream; attribute = measure allocation after every frame (second pass of a
+// stream that broke the allocation bound, to name the frame that did it).
+func serveStream(idx int, s stream, attribute bool) (res result) {
 	res.Idx = idx
 	add := func(clause string, f map[string]string, detail string) {
 		res.Findings = append(res.Findings, finding{clause, f, detail})
@@ -166,6 +176,12 @@ func runStream(idx int, s stream) (res result) {
 			chunks = append(chunks, chunk{s.Data[f.Off : f.Off+f.Len], i})
 		}
 	}
+	if attribute {
+		chunks = chunks[:0]
+		for i, f := range frames {
+			chunks = append(chunks, chunk{s.Data[f.Off : f.Off+f.Len], i})
+		}
+	}
 	worst, worstFrame := uint64(0), -1
 	state := bmpconn.Blocked
 	prev := a0
@@ -173,7 +189,7 @@ func runStream(idx int, s stream) (res result) {
 		sess.Conn.Feed(c.b)
 		res.Sent += len(c.b)
 		state = sess.Conn.WaitQuiescent(streamWatch)
-		if c.frame >= 0 {
+		if attribute {
 			now := totalAlloc()
 			if d := now - prev; d > worst {
 				worst, worstFrame = d, c.frame
@@ -213,7 +229,8 @@ func runStream(idx int, s stream) (res result) {
 			add("wedge", vf.F("state", "no_return_after_"+res.End), fmt.Sprintf("stream %q: serve loop did not return within %v after the connection ended (%s)\n%s", s.Label, streamWatch, res.End, goroutines()))
 			wedged = true
 		case o.Panicked:
-			add("crash", vf.F("kind", "panic", "where", bmprig.TopFrame(o.Stack), "what", bmprig.PanicClass(o.Panic)),
+			where, via := bmprig.TopFrames(o.Stack)
+			add("crash", vf.F("kind", "panic", "where", where, "via", via, "what", bmprig.PanicClass(o.Panic)),
 				fmt.Sprintf("stream %q: serve goroutine panicked: %s\n%s", s.Label, o.Panic, trimStack(o.Stack)))
 		}
 	}
@@ -222,19 +239,22 @@ func runStream(idx int, s stream) (res result) {
 	res.Fatal = wedged
 	bound := uint64(allocBase + allocPerByte*res.Sent + allocPerFrame*complete)
 	if res.Alloc > bound {
-		if worstFrame < 0 && !wedged {
-			// not fed frame by frame: attribute by serving the same stream once more frame by frame
+		if !attribute && !wedged {
+			// name the frame: serve the same stream once more, measuring after every frame
 			if res.Alloc > 8<<20 {
 				runtime.GC()
 				debug.FreeOSMemory()
 			}
-			t := s
-			t.Feed = 0
-			for _, f := range runStream(idx, t).Findings {
+			found := false
+			for _, f := range serveStream(idx, s, true).Findings {
 				if f.Clause == "alloc" {
-					add(f.Clause, f.Features, f.Detail+fmt.Sprintf(" [fed in mode %d the stream allocated %d bytes]", s.Feed, res.Alloc))
+					add(f.Clause, f.Features, f.Detail+fmt.Sprintf(" [first pass, feed mode %d: %d bytes allocated]", s.Feed, res.Alloc))
+					found = true
 					break
 				}
+			}
+			if !found {
+				add("alloc", vf.F("frame_type", "?", "phase", "?"), fmt.Sprintf("stream %q: %d bytes sent in %d complete frames, %d bytes allocated (bound %d); not reproduced in the attribution pass", s.Label, res.Sent, complete, res.Alloc, bound))
 			}
 		} else if worstFrame >= 0 {
 			f := frames[worstFrame]
@@ -250,7 +270,7 @@ func runStream(idx int, s stream) (res result) {
 		runtime.GC()
 		debug.FreeOSMemory()
 	}
-	if !wedged {
+	if !wedged && !attribute && (idx%4 == 0 || len(res.Findings) > 0 || freshAlways) {
 		if msg := freshCheck(); msg != "" {
 			add("fresh", vf.F("after", "stream"), fmt.Sprintf("after stream %q: %s", s.Label, msg))
 		}
@@ -282,7 +302,7 @@ func goroutines() string {
 
 func childMain() {
 	bmprig.Quiet()
-	debug.SetMemoryLimit(512 << 20)
+	debug.SetMemoryLimit(1 << 30)
 	batch := os.Getenv("C27_CHILD")
 	start, _ := strconv.Atoi(os.Getenv("C27_START"))
 	raw, err := os.ReadFile(batch)
@@ -307,7 +327,9 @@ func childMain() {
 	}
 	for i := start; i < len(streams); i++ {
 		fmt.Fprintf(side, "%d\n", i)
+		t0 := time.Now()
 		res := runStream(i, streams[i])
+		res.Millis = time.Since(t0).Milliseconds()
 		b, _ := json.Marshal(res)
 		out.Write(append(b, '\n'))
 		if res.Fatal {
@@ -325,7 +347,7 @@ type batchOutcome struct {
 	note    []string // infrastructure trouble (-> inconclusive)
 }
 
-var fatalRe = regexp.MustCompile(`(?m)^(fatal error: .*|panic: .*|runtime: out of memory.*|SIGSEGV.*|signal: killed)$`)
+var fatalRe = regexp.MustCompile(`(?m)^(fatal error: .*|panic: .*|runtime: out of memory.*|runtime: cannot allocate memory.*|SIGSEGV.*|signal: killed)$`)
 
 var infraRe = regexp.MustCompile(`pthread_create failed|failed to create new OS thread|failed to reserve page summary|cannot allocate memory for`)
 
@@ -371,7 +393,7 @@ func startChild(batch string, start int, watchdog time.Duration) (exit int, stde
 		defer os.Remove(errPath)
 	}
 	ef, _ := os.Create(errPath)
-	cmd := exec.Command("bash", "-c", `ulimit -s 1024; ulimit -v 786432; exec "$0"`, exe)
+	cmd := exec.Command("bash", "-c", `ulimit -s 1024; ulimit -v 3670016; exec "$0"`, exe)
 	cmd.Env = append(os.Environ(), "C27_CHILD="+batch, "C27_START="+strconv.Itoa(start), "GOTRACEBACK=all", "GOMAXPROCS=2")
 	cmd.Stdout, cmd.Stderr = ef, ef
 	cmd.SysProcAttr = &syscall.SysProcAttr{Pdeathsig: syscall.SIGKILL}
@@ -482,8 +504,9 @@ func runBatch(dir, name string, streams []stream, watchdog time.Duration) batchO
 					stack = stderr[j:]
 				}
 			}
+			where, via := bmprig.TopFrames(stack)
 			bo.results = append(bo.results, result{Idx: last, Sent: len(streams[last].Data), Fatal: true, Findings: []finding{{"crash",
-				vf.F("kind", kind, "where", bmprig.TopFrame(stack), "what", bmprig.PanicClass(what)),
+				vf.F("kind", kind, "where", where, "via", via, "what", bmprig.PanicClass(what)),
 				fmt.Sprintf("stream %q: the receiver process died: %s\n%s", streams[last].Label, what, trimStack(stack))}}})
 		}
 		start = last + 1
@@ -543,6 +566,7 @@ func main() {
 		if raw, ok := r.Replaying(); ok {
 			var s stream
 			vf.Decode(raw, &s)
+			os.Setenv("C27_FRESH_ALWAYS", "1")
 			bo := runBatch(dir, "replay", []stream{s}, 3*time.Minute)
 			for _, res := range bo.results {
 				record(s, res)
